@@ -98,6 +98,10 @@ def run_case(case, ctx):
 	elif cont == 'array_i4bounds':
 		tmp = SignatureArray(refs, kspec, dtype=np.dtype(rdt))
 		rc = SignatureArray.from_arrays(tmp.values, tmp.bounds.astype('i4'), kspec)
+	elif cont in ('array_be_bounds', 'array_u8_bounds'):
+		# bounds array of another 64-bit flavour: big-endian (arrays read from a file written elsewhere) or unsigned
+		tmp = SignatureArray(refs, kspec, dtype=np.dtype(rdt))
+		rc = SignatureArray.from_arrays(tmp.values, tmp.bounds.astype('>i8' if cont == 'array_be_bounds' else 'u8'), kspec)
 	elif cont in ('array_window', 'hdf5_window'):
 		# zero-copy window into a larger array: bounds[0] != 0 (legal: signature i is values[bounds[i]:bounds[i+1]])
 		pad = [np.array([3, 9, 11], dtype=rdt), np.array([4], dtype=rdt)]
@@ -143,7 +147,7 @@ def run_case(case, ctx):
 				pass
 	func = case['func']
 	threads = case['threads']
-	repeats = case['repeats'] if cont in ('array', 'array_i4bounds', 'hdf5', 'array_window', 'hdf5_window') else 1
+	repeats = case['repeats'] if cont in ('array', 'array_i4bounds', 'array_be_bounds', 'array_u8_bounds', 'hdf5', 'array_window', 'hdf5_window') else 1
 	sentinel = np.float32(-7.25)
 	classes = [f'func={func}', f'container={cont}', f'threads={"1" if threads == 1 else "2-4" if threads <= 4 else "5-16"}',
 	           f'rdt={rdt}', 'mixed_dtype' if rdt[1] != qdt[1] else 'same_width']
@@ -318,7 +322,7 @@ def bulk_case(draw, tier):
 		'queries': queries,
 		'ref_dtype': draw(st.sampled_from(['u2', 'u4', 'u8', 'i2', 'i4', 'i8'])),
 		'q_dtype': draw(st.sampled_from(['u4', 'u2', 'u8', 'i8'])),
-		'container': draw(st.sampled_from(['array', 'list', 'pylist', 'hdf5', 'array_i4bounds', 'array', 'array_window', 'hdf5_window'])),
+		'container': draw(st.sampled_from(['array', 'list', 'pylist', 'hdf5', 'array_i4bounds', 'array', 'array_window', 'hdf5_window', 'array_be_bounds', 'array_u8_bounds'])),
 		'q_container': draw(st.sampled_from(['list', 'array'])),
 		'func': func,
 		'chunksize': draw(st.one_of(st.none(), st.integers(1, n + 1), st.just(1000), st.just(1), st.just(2))),
